@@ -153,6 +153,11 @@ Theorem size_derived_count_durable_partial : forall hevery ops, hload false (hru
 Proof. exact size_derived_count_durable. Qed.
 Print Assumptions size_derived_count_durable_partial.
 
+(* ... instantiated at the refresh interval read from dcdplugin.c:write_dcdstep on every run *)
+Theorem mdtraj_dcd_header_count_durable_partial : forall trust ops, hload trust (hrun dcd_header_every ops) = written ops.
+Proof. exact dcd_header_durable. Qed.
+Print Assumptions mdtraj_dcd_header_count_durable_partial.
+
 (* without the side condition: header refreshed every 8th frame + a reader that trusts a non-zero header *)
 Theorem header_refreshed_every_8_frames_refuted :
   hload true (hrun 8 [DWrite [1; 2; 3; 4; 5]; DWrite [6; 7; 8; 9; 10; 11]]) = [1; 2; 3; 4; 5; 6; 7; 8] /\
@@ -205,6 +210,44 @@ Theorem append_only_write_programs_are_models :
 Proof. exact stream_programs_are_models. Qed.
 Print Assumptions append_only_write_programs_are_models.
 
+(* ---- partition independence of the write() methods THEMSELVES: the programs regenerated from today's /repo (their
+   equality with the models is re-proved on every run), for EVERY ordered partition of the frames into write calls *)
+Theorem mdtraj_hdf5_write_partition_independent : forall s parts,
+  h5_load (snd (run (sem h5_bk h5_write) (map (mk_batch s) parts) h5init)) =
+  h5_load (snd (run (sem h5_bk h5_write) [mk_batch s (List.concat parts)] h5init)).
+Proof. exact h5_program_partition. Qed.
+Print Assumptions mdtraj_hdf5_write_partition_independent.
+
+Theorem mdtraj_netcdf_write_partition_independent : forall s parts,
+  nc_load (snd (run (sem nc_bk nc_write) (map (mk_batch s) parts) ncinit)) =
+  nc_load (snd (run (sem nc_bk nc_write) [mk_batch s (List.concat parts)] ncinit)).
+Proof. exact nc_program_partition. Qed.
+Print Assumptions mdtraj_netcdf_write_partition_independent.
+
+(* the nine append-only writers; the side condition (the stored time does not depend on the position of the frame
+   within its call) fails only for xtc/trr called with time=None, see partition_independent_xdr_without_time_refuted *)
+Theorem mdtraj_append_only_write_partition_independent :
+  stream_partition_ok pol_xdr xtc_write /\ stream_partition_ok pol_xdr trr_write /\
+  stream_partition_ok pol_dcd dcd_write /\ stream_partition_ok pol_mdcrd mdcrd_write /\
+  stream_partition_ok pol_xyz xyz_write /\ stream_partition_ok pol_lammpstrj lammpstrj_write /\
+  stream_partition_ok pol_gro gro_write /\ stream_partition_ok pol_pdb pdb_write /\
+  stream_partition_ok pol_dtr dtr_write.
+Proof. exact stream_programs_partition. Qed.
+Print Assumptions mdtraj_append_only_write_partition_independent.
+
+(* ... and after ANY history of accepted and refused calls the HDF5 / NetCDF programs leave exactly the accepted frames *)
+Theorem mdtraj_hdf5_write_history_loads_accepted : forall h,
+  h5_load (snd (run (sem h5_bk h5_write) h h5init)) = expected_load h /\
+  fst (run (sem h5_bk h5_write) h h5init) = full_codes None h.
+Proof. exact h5_program_history. Qed.
+Print Assumptions mdtraj_hdf5_write_history_loads_accepted.
+
+Theorem mdtraj_netcdf_write_history_loads_accepted : forall h,
+  nc_load (snd (run (sem nc_bk nc_write) h ncinit)) = expected_load h /\
+  fst (run (sem nc_bk nc_write) h ncinit) = full_codes None h.
+Proof. exact nc_program_history. Qed.
+Print Assumptions mdtraj_netcdf_write_history_loads_accepted.
+
 (* the checkers' verdict on hdf5.py / netcdf.py / mdcrd.py as they were before the fix: commits, and on a program
    with a mutation moved in front of a validation (which really is not atomic) *)
 Theorem write_methods_as_found_rejected_refuted :
@@ -231,6 +274,9 @@ Example hypotheses_satisfiable :
   h5_load (snd (run h5_fix [bt [10; 11] true true 4; bt [12] false true 4; bt [14] true true 4] h5init)) =
     Some [(10, OVal 10, OVal 10); (11, OVal 11, OVal 11); (14, OVal 14, OVal 14)] /\
   crash_images (drun false [DWrite [1; 2]; DFlush; DWrite [3; 4]]) = [[1; 2]; [1; 2; 3]; [1; 2; 3; 4]] /\
-  schema_of (bt [12] false true 4) <> s.
-Proof. vm_compute. repeat split. discriminate. Qed.
+  schema_of (bt [12] false true 4) <> s /\
+  sload (snd (run (sem (stream_bk pol_dcd) dcd_write) (map (mk_batch s) [[10]; []; [11; 12]]) sinit)) =
+    Some [(10, OVal 0, OVal 10); (11, OVal 1, OVal 11); (12, OVal 2, OVal 12)] /\
+  (time_index_default pol_dcd = false \/ s_time s = true \/ store_time pol_dcd = false).
+Proof. vm_compute. repeat split; try discriminate. left; reflexivity. Qed.
 Print Assumptions hypotheses_satisfiable.
